@@ -104,12 +104,13 @@ _native_cache = {}
 
 def native_for(job_spec, asan):
     key = (job_spec['src'], job_spec['config'], tuple(job_spec['defines']), asan)
+    defs0 = [d for d in job_spec['defines'] if not (asan and d == '__SANITIZE_ADDRESS__')]
     if key not in _native_cache:
         wd = build.workdir()
         name = os.path.splitext(os.path.basename(job_spec['src']))[0]
         h = hashlib.sha1(repr(key).encode()).hexdigest()[:8]
-        out = os.path.join(wd, 'native_%s_%s%s' % (name, h, '_asan' if asan else ''))
-        defs = list(job_spec['defines'])
+        out = os.path.join(wd, 'native_%s_%s%s' % (name, h, ('_' + asan) if isinstance(asan, str) else ('_asan' if asan else '')))
+        defs = defs0
         build.compile_native([os.path.join(VERIF, job_spec['src'])], out, job_spec['config'], defs, asan=asan,
                              opt='-O1' if asan else '-O2')
         _native_cache[key] = out
@@ -132,6 +133,19 @@ def replay(job_spec, viol, path):
     entry = job_spec['entry'].lstrip('@')
     mem = viol['kind'] in ('oob', 'uaf', 'doublefree', 'badfree', 'uninit', 'assert', 'abort', 'unreachable', 'div0', 'trap', 'throw')
     details = []
+    if viol['kind'] == 'race':
+        # data-race counterexample: the harness runs the operations in two real threads when replayed; ThreadSanitizer decides
+        try:
+            exe = native_for(job_spec, 'tsan')
+            env = dict(os.environ); env['TSAN_OPTIONS'] = 'halt_on_error=1:exitcode=66'
+            r = subprocess.run(['setarch', 'x86_64', '-R', exe, entry, path], stdout=subprocess.PIPE, stderr=subprocess.PIPE, text=True, timeout=300, env=env)
+            out = r.stdout + r.stderr
+            if 'ThreadSanitizer: data race' in out:
+                loc = [l.strip() for l in out.split('\n') if l.strip().startswith('#0')][:2]
+                return True, 'tsan build: ThreadSanitizer: data race ' + ' / '.join(loc)[:300]
+            return False, 'tsan build: no data race reported (exit %d) %s' % (r.returncode, out.strip().split('\n')[-1][:200] if out.strip() else '')
+        except Exception as e:
+            return False, 'tsan replay failed: %s' % str(e)[-300:]
     for asan in ([True, False] if mem else [False, True]):
         try:
             exe = native_for(job_spec, asan)
@@ -206,6 +220,13 @@ def finish(pid, tier, seed, results, level, technique, assumptions, t0, extra_co
             ninc += 1
             print('INCONCLUSIVE job=%s: %s' % (r['name'], (r.get('error') or '')[:300]))
         seen_sig = set()
+        if r['spec'].get('extra', {}).get('expect_violation'):
+            # negative control (sanity twin): this job MUST report a violation, which is then not a finding
+            if not r.get('violations'):
+                ninc += 1; print('INCONCLUSIVE job=%s: negative control did not fire (the oracle is blind)' % r['name'])
+            else:
+                jobs_cov[-1]['negative_control_fired'] = r['violations'][0]['msg'][:160]
+            continue
         for v in r.get('violations', []):
             if prop_filter is not None and not prop_filter(v):
                 foreign += 1; continue
